@@ -42,7 +42,7 @@ InvCollapse ==
     ELSE c.res = "WrongMethod"
 
 MC_NameU == 1..3
-MC_WeightU == {NaN, 1, 2}
+MC_WeightU == {NaN, 1}
 MC_AttrU == {0}
 MC_EdgeAttrU == {0}
 MC_SpecsU == AllSpecs
